@@ -18,10 +18,21 @@ def generate(run_seed, tier, index):
 def execute(sc, check=None):
     m = FW.materialise(sc)
     out = FW.run_filter(sc, m)
-    viol = (check or sched.check_c09)(sc, m, out)
+    viol = sched.check_c09(sc, m, out)
+    if sc['knobs'].get('rerun') and not viol:
+        # the same call again with the SAME measurement and sensor-model objects: every
+        # clause must hold for the second run as well
+        FW.reset_spies(m)
+        out = FW.run_filter(sc, m, reuse=out.kwargs)
+        viol = sched.check_c09(sc, m, out)
+        for v in viol:
+            v['detail'] = "(second run with the same measurement and model objects) " + \
+                v['detail']
+            v['key'] = 'rerun/' + v['key']
     return dict(violations=viol, digest=sched.result_digest(sc, m, out),
                 sig=FW.signature(sc, m), nontrivial=FW.nontrivial(sc, m),
-                probes=FW.probes(sc, m, out), faults=FW.fault_counts(sc),
+                probes=dict(FW.probes(sc, m, out), **({'second_run_same_objects': 1}
+                                                       if sc['knobs'].get('rerun') else {})), faults=FW.fault_counts(sc),
                 sim_s=FW.sim_seconds(sc), ops=len(sc['imu']['stamps']) - 1 +
                 sum(len(s['stamps']) for s in sc['sensors']),
                 extra=dict(filter_lines=out.lines, kernel_calls=out.kernel_calls,
